@@ -110,6 +110,17 @@ func CreateIndex(config IndexConfig) (*Index, error) {
 		return nil, err
 	}
 
+	// reject operator-like field names: "$..." cannot be queried as a field
+	// (Transaction.Expire builds {field: {$lt: ...}} from the key of a TTL
+	// index) and MongoDB rejects such index keys as well
+	for _, column := range columns {
+		for _, segment := range strings.Split(column.Path, ".") {
+			if strings.HasPrefix(segment, "$") {
+				return nil, fmt.Errorf("index key contains an illegal field name: %q starts with '$'", segment)
+			}
+		}
+	}
+
 	// enforce single field ttl index
 	if config.Expiry > 0 && len(*config.Key) > 1 {
 		return nil, fmt.Errorf("invalid expiring compound index")
